@@ -1,6 +1,7 @@
 SPECIFICATION Spec
 CONSTANTS
   MaxOps = 2
+  Vers = {1, 2}
   NIns = 1
 CHECK_DEADLOCK FALSE
 INVARIANT NeverDiffers
